@@ -316,6 +316,11 @@ class Shard(ShardCMC):
                 data_size += len(minishard.databytearray)
                 del minishard.databytearray
 
+            # Each minishard index is referenced from its own slot of the
+            # shard index (slot number == minishard number). Unused minishards
+            # get an empty entry (start == end).
+            num_slots = int(2 ** self.shard_spec.minishard_bits)
+            slots = [None] * num_slots
             sh_size = 0
             for minishard in sorted_mini_dict:
                 # turning [0, 1, 2, 3, 4, 5] into [0, 3, 1, 4, 2, 5]
@@ -326,27 +331,22 @@ class Shard(ShardCMC):
                 hdr_buf = self.shard_spec.index_encoder(hdr_buf)
                 fp.write(hdr_buf)
 
-                sh_idx_buf += struct.pack("<Q", data_size + sh_size)
-
-                sh_size += len(hdr_buf)
-                sh_idx_buf += struct.pack("<Q", data_size + sh_size)
-
-            sh_idx_len = len(sh_idx_buf)
-            if sh_idx_len != (2 ** self.shard_spec.minishard_bits) * 16:
-                print(f"Writing shard index: Expected "
-                      f"{(2 ** self.shard_spec.minishard_bits) * 16} bytes, "
-                      f"got {sh_idx_len}. Padding the rest with empty bytes.")
-
-                if sh_idx_len >= (2 ** self.shard_spec.minishard_bits) * 16:
+                # the first entry of the header is the first chunk id
+                slot = int(CMCReadWrite.get_minishard_key(
+                    self, minishard.header[0]))
+                if slot >= num_slots or slots[slot] is not None:
                     raise ShardedIOError(
-                        f"sh_idx_len {sh_idx_len!r} should always be <= "
-                        "(2 ** self.shard_spec.minishard_bits) * 16:"
-                        f"{(2 ** self.shard_spec.minishard_bits) * 16}")
+                        f"cannot place minishard index in slot {slot} of "
+                        f"{num_slots}: more minishards than "
+                        "(2 ** self.shard_spec.minishard_bits)")
+                slots[slot] = (data_size + sh_size,
+                               data_size + sh_size + len(hdr_buf))
+                sh_size += len(hdr_buf)
 
-                while sh_idx_len < (2 ** self.shard_spec.minishard_bits) * 16:
-                    sh_idx_buf += struct.pack("<Q", data_size + sh_size)
-                    sh_idx_buf += struct.pack("<Q", data_size + sh_size)
-                    sh_idx_len = len(sh_idx_buf)
+            for entry in slots:
+                if entry is None:
+                    entry = (data_size + sh_size, data_size + sh_size)
+                sh_idx_buf += struct.pack("<QQ", *entry)
 
             fp.seek(0)
             fp.write(bytes(sh_idx_buf))
